@@ -15,7 +15,7 @@ LEVEL_TEXT = ("Held on every generated bit array / DNA string / number of this r
               "the thorough tier) and random widths 0..200. Sampled; the contracts also fire on the internal uses by encode, decode, set_vt and repair_dna.")
 LEVEL_NOTE = ("Trusts Python int. The integer path is driven with Python ints / lists (documented types; number_to_bit rejects "
               "numpy integers by design), the string path also with numpy arrays as encode passes them.")
-PLAN = {"quick": dict(shards=17, budget=40), "thorough": dict(shards=17, budget=300)}
+PLAN = {"quick": dict(shards=17, budget=130), "thorough": dict(shards=17, budget=300)}
 SPECIAL_SHARD = True  # the last shard runs files of the repository's own suite in-process under the contracts
 RULE = ("bit arrays / DNA strings of the widths above in the classes all-zero, all-one, leading zeros, single 1, random; numbers "
         "0, 1, 2^L-1 (4^L-1), random below capacity: number_to_bit(bit_to_number(b), len(b)) == b, number_to_dna(dna_to_number(s)"
